@@ -281,7 +281,7 @@ def jobs(tier):
                                                utxo_amounts=str(spend_sql.UTXO_CATALOGUE), payments=str(spend_sql.PAY_CATALOGUE), strategy=sname,
                                                builds='2 in sequence, the first still in flight; optionally the funding transactions confirm '
                                                'and are saved again in between; then the first is abandoned'),
-                        must_reach=('ok', 'ok-both-funded')))
+                        must_reach=('ok', 'ok-both-funded') if strategies[0] in spend_sql.ACCUMULATING else ('ok',)))
     return out
 
 
